@@ -157,8 +157,21 @@ logging.handlers.RotatingFileHandler = SimRotatingFileHandler
 LOG_LEVELS = {"off": 100, "info": logging.INFO, "debug": logging.DEBUG}
 
 
+_LOGGER_SEQ = [0]
+
+
 def make_logger(level):
-    lg = logging.Logger("sim.excluderegion", LOG_LEVELS[level])
+    """A *registered* logger (as OctoPrint hands to plugins): StreamProcessor deep-copies the state, and a
+    Logger only survives copy.deepcopy if logging.getLogger(name) returns it."""
+    name = "octoprint.plugins.excluderegion.sim%d" % _LOGGER_SEQ[0]
+    _LOGGER_SEQ[0] += 1
+    lg = logging.getLogger(name)
+    for old in list(lg.handlers):
+        lg.removeHandler(old)
+    for f in list(lg.filters):
+        lg.removeFilter(f)
+    lg.setLevel(LOG_LEVELS[level])
+    lg.disabled = False
     h = SimLogHandler()
     lg.addHandler(h)
     lg.propagate = False
@@ -179,7 +192,9 @@ class SimPluginManager(object):
 # --- plugin factory --------------------------------------------------------------------------------------
 def reset_settings():
     """Back to defaults: plugin subtree removed, global feature flag off."""
-    SETTINGS.remove(["plugins", "excluderegion"])
+    # Settings.remove() of a subtree leaves flattened list entries behind when two different lists were
+    # stored one after the other (observed with octoprint 1.11.8), so replace the whole config layer.
+    SETTINGS._map.top_map = {}
     SETTINGS.setBoolean(["feature", "g90InfluencesExtruder"], False)
 
 
@@ -212,3 +227,4 @@ def reset_run_globals():
     UUID.__init__()
     USER.anon = False
     SimRotatingFileHandler.instances = []
+    _LOGGER_SEQ[0] = 0
